@@ -130,6 +130,63 @@ func c06Commit(c *mc.Ctx) {
 	}
 }
 
+// every zone offset from -14:00 to +14:00 in one-minute steps, and a few with seconds
+func c06Zones(c *mc.Ctx) {
+	hours := c.Choose(29) - 14
+	c.Shard()
+	var bad string
+	n := 0
+	for m := 0; m < 60; m++ {
+		for _, sec := range []int{0, 30} {
+			off := hours*3600 + m*60 + sec
+			if hours < 0 {
+				off = hours*3600 - m*60 - sec
+			}
+			if off > 14*3600 || off < -14*3600 {
+				continue
+			}
+			for _, unix := range []int64{1, 1700000000, -1} {
+				t := time.Unix(unix, 0).In(time.FixedZone("", off))
+				com := &objects.Commit{Table: bytes.Repeat([]byte{7}, 16), AuthorName: "n", AuthorEmail: "e", Message: "m", Time: t}
+				buf := bytes.NewBuffer(nil)
+				if _, err := com.WriteTo(buf); err != nil {
+					bad = fmt.Sprintf("offset %ds: WriteTo failed: %v", off, err)
+					break
+				}
+				enc := append([]byte{}, buf.Bytes()...)
+				_, back, err := objects.ReadCommitFrom(bytes.NewReader(enc))
+				n++
+				if err != nil {
+					bad = fmt.Sprintf("offset %ds unix %d: does not read back: %v", off, unix, err)
+					break
+				}
+				_, o2 := back.Time.Zone()
+				// the format keeps hours and minutes of the offset
+				want := off / 60 * 60
+				if back.Time.Unix() != unix || o2 != want {
+					bad = fmt.Sprintf("time %v (unix %d, offset %ds) read back as %v (unix %d, offset %ds)", t, unix, off, back.Time, back.Time.Unix(), o2)
+					break
+				}
+				buf2 := bytes.NewBuffer(nil)
+				back.WriteTo(buf2)
+				if !bytes.Equal(buf2.Bytes(), enc) {
+					bad = fmt.Sprintf("offset %ds unix %d: re-encoding what was read differs from the stored bytes", off, unix)
+					break
+				}
+			}
+		}
+	}
+	c.Count("zone_roundtrips", int64(n))
+	if bad != "" {
+		c.Fail("commit-time", "commit time does not round-trip: %s", bad)
+	}
+	c.Outcome(fmt.Sprintf("hours%+d-ok=%v", hours, bad == ""))
+	c.Nontrivial(fmt.Sprintf("hours %d", hours))
+	if c.WantSample() {
+		c.Sample(fmt.Sprintf("zone offsets %+03d:00..%+03d:59 (minute steps, +30s variants) x 3 instants: %d commit round trips", hours, hours, n))
+	}
+}
+
 func lenMsg(c *objects.Commit) int {
 	if c == nil {
 		return -1
@@ -554,13 +611,14 @@ func init() {
 	register(&mc.Check{
 		ID:    "C06",
 		Level: "exploration",
-		Rule: "commits: author name/message in {'',a,a\\nb,\\xff,65535,65536,70000 bytes} x email x 0..3 parents x time {zero,0,1,2^31,-1,9999999999,10^10} x zone {UTC,+05:30,-07:00,+14:00,+00:00:30}; tables: 0..3 column names from {'',a,bb,65535,65536 bytes} x every key x 0..3 blocks x last-block fill; " +
+		Rule: "commits: author name/message in {'',a,a\\nb,\\xff,65535,65536,70000 bytes} x email x 0..3 parents x time {zero,0,1,2^31,-1,9999999999,10^10} x zone {UTC,+05:30,-07:00,+14:00,+00:00:30}; commit time zones: every offset -14:00..+14:00 in one-minute steps (and +30 s) x 3 instants; tables: 0..3 column names from {'',a,bb,65535,65536 bytes} x every key x 0..3 blocks x last-block fill; " +
 			"blocks: 1,2,3,254,255 rows x 1..3 columns x one special cell (quotes, newline, delimiter, non-UTF8, 65535/65536/70000 bytes) at every position x rows crossing 64 KiB x key; block index built both ways; table profiles with every subset of optional fields; string/uint lists of 0..3 elements; " +
 			"packfile header: every length 1..2^26 (thorough: every 32-bit length) for type 1 and 2^k+-1024 windows up to 2^63 for types 1..3. Each object is written, read back, compared, re-encoded (bytes must coincide), saved (key = prefix + hash of bytes, saving twice leaves one entry) and fetched; over-limit text must be refused by the writer with an error. " +
 			"non-trivial = a completed round trip or refusal; distinct by case description",
 		Assumptions: []string{"commit time is compared at the format's resolution (Unix second, zone offset in minutes); an instant the 16-byte field cannot hold (>= 10^10 s) may be refused or round-trip", "object length 0 is excluded from the header family (no object is empty)", "field lengths are explored at the 16-bit boundaries only"},
 		Harnesses: []*mc.Harness{
 			{Name: "commit", Body: c06Commit, Budget: map[string]time.Duration{"quick": 40 * time.Second, "thorough": 5 * time.Minute}},
+			{Name: "commit-zones", Body: c06Zones, Budget: map[string]time.Duration{"quick": 30 * time.Second, "thorough": 3 * time.Minute}},
 			{Name: "table", Body: c06Table, Budget: map[string]time.Duration{"quick": 40 * time.Second, "thorough": 5 * time.Minute}},
 			{Name: "block-and-index", Body: c06Block, Budget: map[string]time.Duration{"quick": 40 * time.Second, "thorough": 5 * time.Minute}},
 			{Name: "profile", Body: c06Profile, Budget: map[string]time.Duration{"quick": 30 * time.Second, "thorough": 3 * time.Minute}},
